@@ -10,8 +10,11 @@ import (
 	"errors"
 	"fmt"
 	"reflect"
+	"runtime"
 	"sort"
 	"strings"
+	"sync"
+	"sync/atomic"
 	"testing"
 
 	"github.com/mattn/anko/ast"
@@ -199,6 +202,59 @@ func errText(err error) (msg string, ok bool, dyn string) {
 	return err.Error(), true, dyn
 }
 
+// judgeFull judges what one complete walk (callback never failed) presented against the reflective node
+// set: every node presented, each after one of its reflective parents. pre is the signature prefix of the
+// sub-check; detail=false keeps schedule-dependent detail (which node was the first one missing) out of
+// the signature.
+func judgeFull(pre, src string, nodes []dump.Node, visited []interface{}, detail bool) (f *h.Fail) {
+	// what the callback was handed comes from the code under test: a value that cannot even be compared
+	// or hashed (seen: a half-written interface value) is a finding about Walk, not a fault of the harness
+	defer func() {
+		if r := recover(); r != nil {
+			f = h.Failf(pre+"presented-value-unusable", "among the %d values Walk handed to the callback there is one that is no node at all: using it as a map key panicked: %s\nsource:\n%s", len(visited), panicText(r), src)
+		}
+	}()
+	return judgeFull0(pre, src, nodes, visited, detail)
+}
+
+func judgeFull0(pre, src string, nodes []dump.Node, visited []interface{}, detail bool) *h.Fail {
+	order := make(map[interface{}]int, len(visited))
+	for i, x := range visited {
+		if _, ok := order[x]; !ok {
+			order[x] = i
+		}
+	}
+	var missing []string
+	for _, n := range nodes {
+		pos, ok := order[n.Ptr]
+		if !ok {
+			missing = append(missing, n.Kind+" under "+fmt.Sprintf("%T", n.Parent))
+			continue
+		}
+		if n.Parent != nil {
+			// a shared node object has several parents: one of them must have been presented first
+			okParent := false
+			for _, par := range n.Parents {
+				if pp, pok := order[par]; pok && pp < pos {
+					okParent = true
+				}
+			}
+			if !okParent {
+				return h.Failf(pre+"child-before-parent|"+n.Kind, "source:\n%s\nnode %s was presented before (any of) its parent(s) %T", src, n.Kind, n.Parent)
+			}
+		}
+	}
+	if len(missing) > 0 {
+		if !detail {
+			first := missing[0]
+			return h.Failf(pre+"node-not-visited", "%d of %d nodes never reached the callback (%d callbacks in all); first missing in tree order: %s\nsource:\n%s", len(missing), len(nodes), len(visited), first, src)
+		}
+		sort.Strings(missing)
+		return h.Failf(pre+"node-not-visited|"+missing[0], "source:\n%s\n%d of %d nodes never reached the callback: %v", src, len(missing), len(nodes), missing)
+	}
+	return nil
+}
+
 func oracle(c Case, o *h.Obs) *h.Fail {
 	o.Key = c.Src
 	stmt, err := parser.ParseSrc(c.Src)
@@ -222,12 +278,8 @@ func oracle(c Case, o *h.Obs) *h.Fail {
 	}
 	o.NonTrivial = nrare >= 3
 
-	order := map[interface{}]int{}
 	var visited []interface{}
 	werr, wpanic, wpval := guardedWalk(stmt, func(x interface{}) error {
-		if _, ok := order[x]; !ok {
-			order[x] = len(visited)
-		}
 		visited = append(visited, x)
 		return nil
 	})
@@ -243,29 +295,8 @@ func oracle(c Case, o *h.Obs) *h.Fail {
 		return h.Failf("C17|walk-error|"+strings.Join(strings.Fields(msg), " "), "source:\n%s\nWalk returned: %s", c.Src, msg)
 	}
 	o.Class("walk_returned_nil")
-	var missing []string
-	for _, n := range nodes {
-		pos, ok := order[n.Ptr]
-		if !ok {
-			missing = append(missing, n.Kind+" under "+fmt.Sprintf("%T", n.Parent))
-			continue
-		}
-		if n.Parent != nil {
-			// a shared node object has several parents: one of them must have been presented first
-			okParent := false
-			for _, par := range n.Parents {
-				if pp, pok := order[par]; pok && pp < pos {
-					okParent = true
-				}
-			}
-			if !okParent {
-				return h.Failf("C17|child-before-parent|"+n.Kind, "source:\n%s\nnode %s was presented before (any of) its parent(s) %T", c.Src, n.Kind, n.Parent)
-			}
-		}
-	}
-	if len(missing) > 0 {
-		sort.Strings(missing)
-		return h.Failf("C17|node-not-visited|"+missing[0], "source:\n%s\n%d of %d nodes never reached the callback: %v", c.Src, len(missing), len(nodes), missing)
+	if f := judgeFull("C17|", c.Src, nodes, visited, true); f != nil {
+		return f
 	}
 
 	// abort clause
@@ -299,9 +330,274 @@ func oracle(c Case, o *h.Obs) *h.Fail {
 	return nil
 }
 
+// ---- sub-check `together`: several walks of one parsed tree at the same time ----
+//
+// The statement speaks of "walking any tree produced by the parser": every single walk has to present
+// every node, whatever else happens to that tree meanwhile - and the only thing that may happen to it
+// here is other walks (nothing in this sub-check writes to a tree). Each walker has its own callback and
+// its own record, and each is judged on its own, by the rules of sub-check `walk`.
+
+type TCase struct {
+	Src string `json:"src"`
+	// one entry per goroutine: < 0 = complete walk; >= 0: the callback returns its error at call
+	// (entry mod number of nodes of the tree), counted from 0
+	Walkers []int `json:"walkers"`
+	Trees   int   `json:"trees"` // 1: all walkers on one root; 2: on two independent parses of the text, alternating
+	Warm    bool  `json:"warm"`  // a complete walk of every tree has finished before the walkers start
+	Rounds  int   `json:"rounds"` // the whole experiment is done this many times, each time on fresh parses (0 = once)
+}
+
+var flatLines = []string{"total = add(total, items[i].price)", "x = f(a, b) + g(c)[0]", "m[k] = {\"a\": [1, 2], \"b\": h(x)}", "if a { b = c.d(1) } else { e = -f }", "v, ok = <-ch",
+	"a = b + c * f(d, e[1])\nif a > 2 { g(a) } else { h(a ? 1 : 2) }", "for i in [1, 2] { s += len(l[i:2]) ?? 0 }", "switch x { case 1, y: delete(m, k) default: close(c) }"}
+
+func genTogether(t *rapid.T) TCase {
+	src := wild.Program(t, wild.Opts{Loops: true, Go: true, HugeInts: true, MaxDepth: 3, MaxStmts: 3})
+	if rapid.IntRange(0, 2).Draw(t, "shapes") == 0 {
+		src += "\n" + genShape(t)
+	}
+	// the size of the tree is the length of time a walk takes, and with it the overlap of the walks
+	lines := 0
+	switch sz := rapid.IntRange(0, 39).Draw(t, "size"); {
+	case sz < 12:
+	case sz < 26:
+		lines = rapid.IntRange(5, 80).Draw(t, "lines")
+	case sz < 36:
+		lines = rapid.IntRange(81, 300).Draw(t, "lines")
+	case sz < 39 || rapid.IntRange(0, 3).Draw(t, "large") != 0:
+		lines = rapid.IntRange(301, 1000).Draw(t, "lines")
+	default:
+		lines = rapid.SampledFrom([]int{1500, 2500, 4000}).Draw(t, "lines")
+	}
+	if lines > 0 {
+		line := rapid.SampledFrom(flatLines).Draw(t, "line")
+		if rapid.Bool().Draw(t, "front") {
+			src = strings.Repeat(line+"\n", lines) + src
+		} else {
+			src = src + "\n" + strings.Repeat(line+"\n", lines)
+		}
+	}
+	k := rapid.IntRange(2, 8).Draw(t, "walkers")
+	ws := make([]int, k)
+	for i := range ws {
+		ws[i] = -1
+		if rapid.IntRange(0, 3).Draw(t, "aborts") == 0 {
+			ws[i] = rapid.IntRange(0, 200000).Draw(t, "at")
+		}
+	}
+	trees := 1
+	if rapid.IntRange(0, 3).Draw(t, "two") == 0 {
+		trees = 2
+	}
+	rounds := 1
+	if lines <= 80 {
+		rounds = rapid.IntRange(1, 3).Draw(t, "rounds")
+	}
+	return TCase{Src: src, Walkers: ws, Trees: trees, Warm: rapid.IntRange(0, 3).Draw(t, "warm") == 0, Rounds: rounds}
+}
+
+type walkerOut struct {
+	visited  []interface{}
+	calls    int
+	err      error
+	panicked bool
+	pval     string
+}
+
+func sizeClass(n int) string {
+	switch {
+	case n < 100:
+		return "lt100"
+	case n < 1000:
+		return "lt1000"
+	case n < 10000:
+		return "lt10000"
+	}
+	return "ge10000"
+}
+
+func oracleTogether(c TCase, o *h.Obs) *h.Fail {
+	o.Key = fmt.Sprintf("%v|%d|%v|%d|%s", c.Walkers, c.Trees, c.Warm, c.Rounds, c.Src)
+	o.Note = fmt.Sprintf("walkers=%v trees=%d warm=%v rounds=%d src=%s", c.Walkers, c.Trees, c.Warm, c.Rounds, c.Src)
+	if len(c.Walkers) < 2 || len(c.Walkers) > 64 || c.Trees < 1 || c.Trees > 2 || c.Rounds < 0 || c.Rounds > 100 {
+		o.Excluded = "together: malformed case"
+		return nil
+	}
+	rounds := c.Rounds
+	if rounds == 0 {
+		rounds = 1
+	}
+	for r := 0; r < rounds; r++ {
+		oo := o
+		if r > 0 {
+			oo = &h.Obs{} // classes are counted once per case
+		}
+		if f := togetherOnce(c, oo); f != nil {
+			f.Msg = fmt.Sprintf("round %d of %d: ", r+1, rounds) + f.Msg
+			return f
+		}
+		if o.Excluded != "" {
+			return nil
+		}
+	}
+	o.Class("together_rounds_%d", rounds)
+	return nil
+}
+
+func togetherOnce(c TCase, o *h.Obs) *h.Fail {
+	short := c.Src
+	if len(short) > 1500 {
+		short = short[:700] + fmt.Sprintf("\n... (%d bytes in all) ...\n", len(c.Src)) + short[len(short)-700:]
+	}
+	phase := "cold"
+	if c.Warm {
+		phase = "warm"
+	}
+	pre := "C17|together-" + phase + "|"
+	// every case parses anew: the roots below have never been walked by anybody
+	roots := make([]ast.Stmt, c.Trees)
+	nodes := make([][]dump.Node, c.Trees)
+	for i := range roots {
+		stmt, err := parser.ParseSrc(c.Src)
+		if err != nil {
+			o.Excluded = "generator produced unparseable text (harness problem): " + err.Error()
+			return nil
+		}
+		roots[i], nodes[i] = stmt, dump.Nodes(stmt)
+	}
+	kinds := map[string]bool{}
+	nrare := 0
+	for _, n := range nodes[0] {
+		if !kinds[n.Kind] {
+			kinds[n.Kind] = true
+			if rare[n.Kind] {
+				nrare++
+			}
+		}
+	}
+	o.NonTrivial = nrare >= 3
+	if len(nodes[0]) == 0 {
+		o.Excluded = "together: empty tree"
+		return nil
+	}
+	if c.Warm {
+		for i := range roots {
+			var visited []interface{}
+			werr, wpanic, wpval := guardedWalk(roots[i], func(x interface{}) error { visited = append(visited, x); return nil })
+			if wpanic {
+				return h.Failf("C17|together-first|walk-panicked", "the first, solitary walk of the tree panicked after %d callbacks: %s\nsource:\n%s", len(visited), wpval, short)
+			}
+			if werr != nil {
+				msg, _, dyn := errText(werr)
+				return h.Failf("C17|together-first|walk-error", "the first, solitary walk of the tree returned %s: %s (callback never fails)\nsource:\n%s", dyn, msg, short)
+			}
+			if f := judgeFull("C17|together-first|", short, nodes[i], visited, false); f != nil {
+				return f
+			}
+		}
+	}
+
+	k := len(c.Walkers)
+	outs := make([]walkerOut, k)
+	sentinels := make([]error, k)
+	stops := make([]int, k)
+	var ready int32
+	var wg sync.WaitGroup
+	for i := 0; i < k; i++ {
+		ti := i % c.Trees
+		stops[i] = -1
+		if c.Walkers[i] >= 0 {
+			stops[i] = c.Walkers[i] % len(nodes[ti])
+			sentinels[i] = fmt.Errorf("walker %d stops here", i)
+		}
+		wg.Add(1)
+		go func(i int, root ast.Stmt) {
+			defer wg.Done()
+			out := &outs[i]
+			stop, sentinel := stops[i], sentinels[i]
+			cb := func(x interface{}) error {
+				out.calls++
+				if stop >= 0 {
+					if out.calls-1 == stop {
+						return sentinel
+					}
+					return nil
+				}
+				out.visited = append(out.visited, x)
+				return nil
+			}
+			// all walkers leave this line within a few instructions of each other
+			atomic.AddInt32(&ready, 1)
+			for atomic.LoadInt32(&ready) < int32(k) {
+				runtime.Gosched()
+			}
+			out.err, out.panicked, out.pval = guardedWalk(root, cb)
+		}(i, roots[ti])
+	}
+	wg.Wait()
+
+	o.Class("together_" + phase)
+	o.Class("together_walkers_%d", k)
+	o.Class("together_trees_%d", c.Trees)
+	o.Class("together_nodes_" + sizeClass(len(nodes[0])))
+	naborting := 0
+	for i := 0; i < k; i++ {
+		out := &outs[i]
+		n := len(nodes[i%c.Trees])
+		who := fmt.Sprintf("walker %d of %d (%s, %d tree(s))", i, k, phase, c.Trees)
+		if out.panicked {
+			return h.Failf(pre+"walk-panicked", "%s: Walk panicked after %d callbacks (the callback never panics): %s\nsource:\n%s", who, out.calls, out.pval, short)
+		}
+		if stops[i] < 0 {
+			if out.err != nil {
+				msg, _, dyn := errText(out.err)
+				return h.Failf(pre+"walk-error", "%s: Walk returned %s: %s after %d callbacks although its callback never returned an error\nsource:\n%s", who, dyn, msg, out.calls, short)
+			}
+			if f := judgeFull(pre, short, nodes[i%c.Trees], out.visited, false); f != nil {
+				f.Msg = who + ": " + f.Msg
+				return f
+			}
+			continue
+		}
+		naborting++
+		if out.calls < stops[i]+1 {
+			got := "nil"
+			if out.err != nil {
+				m, _, dyn := errText(out.err)
+				got = dyn + ": " + m
+			}
+			return h.Failf(pre+"walk-ended-early", "%s: the tree has %d nodes and the callback was to return its error at call %d, but Walk came back (result %s) after only %d callbacks\nsource:\n%s", who, n, stops[i], got, out.calls, short)
+		}
+		if out.err != sentinels[i] {
+			got := "nil"
+			if out.err != nil {
+				m, _, dyn := errText(out.err)
+				got = dyn + ": " + m
+			}
+			return h.Failf(pre+"abort-error-not-returned", "%s: callback returned its error at call %d, Walk returned %s\nsource:\n%s", who, stops[i], got, short)
+		}
+		if out.calls != stops[i]+1 {
+			return h.Failf(pre+"walk-continued-after-abort", "%s: callback returned its error at call %d but was called %d times\nsource:\n%s", who, stops[i], out.calls, short)
+		}
+	}
+	o.Class("together_aborting_walkers_%d", naborting)
+	return nil
+}
+
+// schedule dependent findings are recorded as found (a smaller tree is a shorter overlap: shrinking
+// works against reproduction)
+func oracleTogetherNoShrink(c TCase, o *h.Obs) *h.Fail {
+	f := oracleTogether(c, o)
+	if f != nil && !strings.HasPrefix(f.Sig, "C17|together-first|") {
+		f.NoShrink = true
+	}
+	return f
+}
+
 func TestC17(t *testing.T) {
 	c := h.New(t, "C17")
 	defer c.Finish()
 	c.Rule("programs from the full-grammar generator (internal/wild: every statement and expression production in every child position) parsed with parser.ParseSrc; non-trivial = the tree contains >= 3 node kinds that the repo's own TestWalk sample lacks; distinct by source text; class counters = node kinds met below the root")
 	h.Run(c, "walk", c.N(15000, 150000), gen, oracle)
+	c.Rule("together: a program of the same generator, lengthened by 0-4000 copies of one statement, parsed anew (a root nobody has walked), then walked by 2-8 goroutines at the same moment, each with a callback and a record of its own; a quarter of the walkers return an error at a drawn call; a quarter of the cases use two independent parses of the text, a quarter start after one solitary complete walk; every walker is judged alone by the rules of `walk`; non-trivial as in `walk`")
+	h.Run(c, "together", c.N(450, 4500), genTogether, oracleTogetherNoShrink)
 }
